@@ -102,10 +102,15 @@ abbrev timelyRun (e : Env) (rc rs : IdRel) (evs : List PEv) : PX := runX (PX.ini
 theorem facts0 (e : Env) (rc rs : IdRel) (evs : List PEv) : propsOk (timelyRun e rc rs evs) = true :=
   PairCert.facts 0 (by simp [PairCert.budgets]) e rc rs evs
 
-theorem always0 (e : Env) (rc rs : IdRel) (evs : List PEv) : alwaysOk (timelyRun e rc rs evs) = true := by
+theorem always0 (e : Env) (rc rs : IdRel) (evs : List PEv) : alwaysOkCore (timelyRun e rc rs evs) = true := by
   have h := facts0 e rc rs evs
-  simp only [propsOk, Bool.and_eq_true] at h
-  exact h.1
+  simp only [propsOk, alwaysOk, Bool.and_eq_true] at h
+  exact h.1.1
+
+theorem kept0 (e : Env) (rc rs : IdRel) (evs : List PEv) : pendingKept (timelyRun e rc rs evs) = true := by
+  have h := facts0 e rc rs evs
+  simp only [propsOk, alwaysOk, Bool.and_eq_true] at h
+  exact h.1.2
 
 theorem settled0 (e : Env) (rc rs : IdRel) (evs : List PEv) (hq : quiescentX (timelyRun e rc rs evs) = true) :
     settledOk (timelyRun e rc rs evs) = true := by
@@ -175,7 +180,7 @@ theorem C03_untrusted_never_completes (e : Env) (rc rs : IdRel) (evs : List PEv)
     (timelyRun e rc rs evs).setC = .zero ∧ (timelyRun e rc rs evs).setS = .zero := by
   have h := always0 e rc rs evs
   have c := cfg0 e rc rs evs
-  simp only [alwaysOk, Bool.and_eq_true] at h
+  simp only [alwaysOkCore, Bool.and_eq_true] at h
   have h1 := h.1.1.1.1.1.1
   have ht : trustedBefore (timelyRun e rc rs evs) = false := by simp [trustedBefore, c.2.1, hp, ha]
   rw [ht, hn] at h1
@@ -187,6 +192,20 @@ theorem C03_untrusted_never_completes (e : Env) (rc rs : IdRel) (evs : List PEv)
   · cases hs : (timelyRun e rc rs evs).setC <;> simp_all [Cnt3.isZero]
   · cases hs : (timelyRun e rc rs evs).setS <;> simp_all [Cnt3.isZero]
 
+/-- **C03 (a pending request is kept)**: in timely mode, with waiting allowed and no cancellation by the user, the
+    server side does not abort the pending request by itself as long as the client is still waiting - so that an
+    approval "at any moment while the request is pending" has a request to act on. In every state of every run. -/
+theorem C03_pending_kept (e : Env) (rc rs : IdRel) (evs : List PEv) (ha : e.allow = true)
+    (hc : (timelyRun e rc rs evs).cancelled = false)
+    (hs : (timelyRun e rc rs evs).p.s.st = .hAbort ∨ (timelyRun e rc rs evs).p.s.st = .hAbortDone) :
+    clientGone (timelyRun e rc rs evs) = true := by
+  have h := kept0 e rc rs evs
+  have c := cfg0 e rc rs evs
+  have hl : (timelyRun e rc rs evs).p.s.st.isLocalAbort = true := by
+    rcases hs with hs | hs <;> rw [hs] <;> rfl
+  simp only [pendingKept, c.1, c.2.1, ha, hc, hl, Bool.not_false, Bool.and_self, Bool.not_true, Bool.false_or] at h
+  exact h
+
 /-- **C03 (set up exactly once, ids learned)**: nobody is set up twice; a side in the completed state has been set
     up exactly once and holds the other side's SHIP id; a side that holds a different id for the peer never completes -/
 theorem C03_setup_once_and_ids (e : Env) (rc rs : IdRel) (evs : List PEv) :
@@ -196,7 +215,7 @@ theorem C03_setup_once_and_ids (e : Env) (rc rs : IdRel) (evs : List PEv) :
     (rc = .mismatch → (timelyRun e rc rs evs).p.c.st ≠ .complete) ∧ (rs = .mismatch → (timelyRun e rc rs evs).p.s.st ≠ .complete) := by
   have h := always0 e rc rs evs
   have c := cfg0 e rc rs evs
-  simp only [alwaysOk, Bool.and_eq_true, Bool.or_eq_true, Bool.not_eq_true'] at h
+  simp only [alwaysOkCore, Bool.and_eq_true, Bool.or_eq_true, Bool.not_eq_true'] at h
   obtain ⟨⟨⟨⟨⟨⟨_, h2⟩, h3⟩, h4⟩, h5⟩, h6⟩, _⟩ := h
   refine ⟨?_, ?_, ?_, ?_, ?_, ?_⟩
   · intro hh; rw [hh] at h4; simp [Cnt3.isMany] at h4
@@ -224,7 +243,7 @@ theorem C03_setup_once_and_ids (e : Env) (rc rs : IdRel) (evs : List PEv) :
 theorem C03_streams_bounded (e : Env) (rc rs : IdRel) (evs : List PEv) :
     (timelyRun e rc rs evs).p.qcs.length ≤ 5 ∧ (timelyRun e rc rs evs).p.qsc.length ≤ 5 := by
   have h := always0 e rc rs evs
-  simp only [alwaysOk, Bool.and_eq_true, decide_eq_true_eq] at h
+  simp only [alwaysOkCore, Bool.and_eq_true, decide_eq_true_eq] at h
   exact h.2
 
 /-- the events of the counter-example: the server is pending, its prolongation request is under way, the user approves -/
